@@ -152,6 +152,9 @@ func genArgvLoose(r *Rng, d *DeclSpec, n int) []string {
 			oi := ois[r.Intn(len(ois))]
 			o := oi.O
 			val := iniValText(r, o)
+			if r.Chance(1, 14) {
+				val = r.Pick([]string{"x!y", "maybe", "12x", "k:x!y", "purple"})
+			}
 			flag := isBoolFlag(o.Kind)
 			if oi.LongFull != "" && (o.Short == "" || r.Bool()) {
 				switch {
